@@ -315,6 +315,26 @@ def run_case(ctx, case, d):
         ctx.fail(("with --regions " + " ".join(o["regions"]) + ": " if regions is not None else "") + "output BAM is not the input alignment list: " + diff,
                  slim, key=rkey)
         return
+    if regions is not None:
+        # ---- the Lean model of the repaired region handling (Model/C10Regions.lean; conservation_regions_order)
+        from harness.gen.c10_gen import parse_region
+        from whatshap.cli.haplotag import normalize_user_regions
+        contigs = list(case["contigs"])
+        user = [[contigs.index(c), s, e] for c, s, e in (parse_region(r) for r in o["regions"])]
+        per = [[] for _ in contigs]
+        for k, r in enumerate(inrecs):
+            if r["chrom"] in contigs:
+                per[contigs.index(r["chrom"])].append(k)
+        ans = ctx.model.ask("c10.regions", user=user, contigs=[[[inrecs[k]["start"], inrecs[k]["end"]] for k in ks] for ks in per])
+        real = normalize_user_regions(o["regions"], contigs)
+        impl_norm = [[[s, e] for s, e in real[c]] for c in contigs if c in real]
+        if impl_norm != ans["norm"]:
+            ctx.disagree("c10.regions/normalize_user_regions", slim, impl_norm, ans["norm"])
+        exp_idx = [k for k, r in enumerate(inrecs) if r["chrom"] in regions and any(overlaps(r, reg) for reg in regions[r["chrom"]])]
+        for name in ("written", "once"):
+            mod_idx = [per[i][k] for i, k in ans[name]]
+            if mod_idx != exp_idx:       # expected == outrecs was established above
+                ctx.disagree("c10.regions/" + name, slim, exp_idx, mod_idx)
     # unplaced tail untouched (also the three tags)
     for e, r in zip(expected, outrecs):
         if e["chrom"] is None and e["three"] != r["three"]:
